@@ -145,7 +145,9 @@ def evalCase (st : Store) (col : CollectionDoc) (cuid : String) (p : Pack) : PPC
   | none =>
     match st.getDatatype p.duid with
     | none => (.matchNothing, none)
-    | some d => if d.colNum = col.num then (.usedDUID, some d) else (.matchNothing, none)
+    | some d =>
+      -- an id that belongs to another collection or another key is neither visible nor free
+      if d.colNum = col.num ∧ d.key = p.key then (.usedDUID, some d) else (.usedDUID, none)
   | some d =>
     if d.typ = p.typ then
       if d.visible then
@@ -164,6 +166,7 @@ deriving DecidableEq, Repr, Inhabited
 def dispatch (c : PPCase) (create subscribe sameDuid : Bool) : Dispatch :=
   if c = .matchKeyNotType && (create || subscribe) then
     .refuse (if create then 302 else 304)
+  else if c = .usedDUID && (create || subscribe) then .refuse 301
   else if subscribe && create then
     match c with
     | .matchNothing => .create
@@ -218,7 +221,11 @@ def processPack (st : Store) (cl : ClientDoc) (col : CollectionDoc) (p : Pack) :
   else
     let (c, doc?) := evalCase st col cl.cuid p
     let sameDuid := match doc? with | some d => d.duid = p.duid | none => true
-    match dispatch c p.create p.subscribe sameDuid with
+    let dsp := dispatch c p.create p.subscribe sameDuid
+    let dsp := if dsp ≠ .create && doc?.isNone then (match dsp with | .refuse x => .refuse x | _ => .refuse 301) else dsp
+    -- a request is only served on the datatype its id names
+    let dsp := if dsp = .normal && !sameDuid then (if p.create then .refuse 302 else .refuse 301) else dsp
+    match dsp with
     | .refuse code => refuse code
     | d =>
       -- createDatatype / subscribeDatatype / normal
@@ -237,7 +244,8 @@ def processPack (st : Store) (cl : ClientDoc) (col : CollectionDoc) (p : Pack) :
       -- pushOperations
       let cp1 : CheckPoint := if p.readOnly then cp0 else ⟨doc.sseqEnd, cp0.cseq⟩
       match (if p.readOnly then Except.ok (cp1, []) else pushOps duid col.num cp1 inOps []) with
-      | .error code => refuse code
+      | .error code => ⟨st, { errorPack resp0 code with create := resp1.create, subscribe := resp1.subscribe,
+                                                         duid := resp1.duid }, none, 0⟩
       | .ok (cp2, newDocs) =>
         -- pullOperations
         let pulled : List OpDoc :=
